@@ -52,7 +52,16 @@ def observe(spec, inp):
             out["res"] = [[int(v) for v in (r if spec["nested"] else [r])] for r in res.tolist()] if res.size else []
             out["lsts"] = lsts
         else:
-            return out
+            nr = spec["rows"]
+            vs = _vars(n_, spec, inp)
+            ent = [[inp["m%d_%d" % (i, j)] for j in range(n + 1)] for i in range(nr)]
+            P = pnd.ge_polyhedron(numpy.array(ent, dtype=numpy.int64), variables=[puan.variable(0, bounds=(1, 1))] + vs)
+            A2, b2 = P.to_linalg()
+            out["ent"] = ent
+            out["A"], out["b"] = P.A.tolist(), P.b.tolist()
+            out["A2"], out["b2"] = A2.tolist(), b2.tolist()
+            out["Avars"] = [str(v.id) for v in P.A.variables]
+            out["A2vars"] = [str(v.id) for v in A2.variables]
     except Exception as e:   # noqa
         out["error"] = "%s: %s" % (type(e).__name__, e)
     return out
@@ -97,4 +106,12 @@ def judge(spec, inp, out, ob):
                 got = out["res"][g] if spec["nested"] else [r[0] for r in out["res"]]
                 if got != exp:
                     bad.append("from_list(%s) gave %s expected %s" % (l, got, exp))
+    elif part == "linalg":
+        ent = out["ent"]
+        if out["A"] != [r[1:] for r in ent] or out["A2"] != [r[1:] for r in ent]:
+            bad.append("A is not the matrix without its first column")
+        if out["b"] != [r[0] for r in ent] or out["b2"] != [r[0] for r in ent]:
+            bad.append("b is not the first column")
+        if out["Avars"] != [str(i) for i in ids] or out["A2vars"] != [str(i) for i in ids]:
+            bad.append("A.variables %s do not match the columns %s" % (out["Avars"], ids))
     return bool(bad), "; ".join(bad) + " | spec=%s inputs=%s" % (spec, inp)
